@@ -175,6 +175,32 @@ def rule_g3_g6(repo, col):
                "the absorbing-element test must precede the filtering of neutral elements", construct="_add_compound: test order", function="LogicFormula._add_compound")
 
 
+def rule_g4b(repo, col):
+    c = repo.cls(MOD, "LogicFormula")
+    m = c.module
+    f = c.methods.get("_add")
+    if f is None:
+        raise AnalysisError("LogicFormula._add missing")
+    paths = dtable.extract(f.node)
+    bad = None
+    n_reuse = 0
+    for p in paths:
+        conds = dict((s, t) for s, t, _ in p.conds)
+        stores = [a for fn, a, _ in p.calls if fn == "<store>" and not a[0].startswith("self._index_next")]
+        idx_writes = [a for a in stores if a[0].startswith("self._index_") or a[0].startswith("collection[") or "_index_" in a[0]]
+        if conds.get("reuse") is False and idx_writes:
+            bad = "a node added with reuse=False is entered into the sharing index (%s): a later readonly node with the same children is mapped onto this mutable node" % idx_writes[0][0]
+        if conds.get("reuse"):
+            n_reuse += 1
+        appends = [a for fn, a, _ in p.calls if fn == "self._nodes.append"]
+        if conds.get("reuse") is False and len(appends) != 1:
+            bad = bad or "a node added with reuse=False must always be appended as a new node"
+    if n_reuse < 2:
+        raise AnalysisError("_add: reuse branches not found")
+    col.decide("G4", m, f.node, bad is None, "_add(reuse=False) appends a fresh node and never touches the sharing index",
+               "_add: %s" % bad, construct="def _add: reuse=False discipline", function="LogicFormula._add")
+
+
 def rule_g5(repo, col):
     c = repo.cls(MOD, "LogicFormula")
     m = c.module
@@ -221,6 +247,30 @@ def rule_g5(repo, col):
                 problems.append(("the replacement must be a disjunction", node))
         if p.end == "fall":
             problems.append(("add_disjunct can fall off its end (returns None = FALSE key)", f.node))
+    # scenario table over the finite domain of component kinds
+    nodeexpr = "self.get_node(%s)" % key
+    for compv, present, kd, full, expect in (
+        (None, False, False, False, "none"), (0, False, False, False, "true"), (7, True, False, False, "none"), (7, True, True, False, "add"),
+        (7, False, False, False, "add"), (7, False, False, True, "add"), (7, False, True, True, "add"),
+    ):
+        mapping = [("self.is_true(%s)" % key, False), ("self.is_false(%s)" % key, False), ("type(%s).__name__ == 'disj'" % nodeexpr, True),
+                   ("%s in %s.children" % (comp, nodeexpr), present), ("self._keep_duplicates", kd),
+                   ("0 < self._max_arity == len(%s.children)" % nodeexpr, full), (comp, compv)]
+        fe = dtable.feasible(paths, mapping)
+        if len(fe) != 1:
+            raise AnalysisError("add_disjunct: %d feasible paths for component=%r present=%s" % (len(fe), compv, present))
+        pth = fe[0]
+        ups = [a for fn, a, _ in pth.calls if fn == "self._update"]
+        what = "component None" if compv is None else "the TRUE key (0)" if compv == 0 else "a %s child%s" % ("present" if present else "new", " with keep_duplicates" if kd else "")
+        if expect == "none" and ups:
+            problems.append(("adding %s must leave the node unchanged" % what, pth.stmts[-1]))
+        if expect == "true" and not (ups and "(0,)" in ups[-1][1]):
+            problems.append(("adding the TRUE key must turn the node into a disjunction containing TRUE (found %s): otherwise a deterministic proof that arrives after a "
+                             "probabilistic one is ignored and the node keeps its old meaning" % ("no update" if not ups else ups[-1][1][:60]), pth.stmts[-1]))
+        if expect == "add" and not (ups and comp in ups[-1][1]):
+            problems.append(("adding %s must update the node with the component" % what, pth.stmts[-1]))
+        if not (pth.end == "return" and pth.value == key):
+            problems.append(("add_disjunct must return the key (found %s %s)" % (pth.end, pth.value), pth.stmts[-1]))
     if n_upd < 2:
         raise AnalysisError("add_disjunct: fewer than 2 updating paths found")
     if n_refuse < 1:
@@ -285,5 +335,6 @@ def run(repo, col):
     rule_g1(repo, col)
     rule_g2(repo, col)
     rule_g3_g6(repo, col)
+    rule_g4b(repo, col)
     rule_g5(repo, col)
     rule_g7(repo, col)
